@@ -225,6 +225,25 @@ func runC21(c *eng.Ctx) {
 	c.Expect("SIB-hardlink-read", 6)
 
 	releasedOnce(c, "COLLECT-hardlinks")
+	hardLinkWriteThrough(c, "SIB-hardlink-write")
+	// the move mark travels in the request context: the delete path hands its own context down to the store wrapper
+	for _, spec := range []struct{ fn, callee string }{
+		{"(*Filer).DeleteEntryMetaAndData", "filer.Filer).doDeleteEntryMetaAndData"},
+		{"(*Filer).doDeleteEntryMetaAndData", "filer.VirtualFilerStore).DeleteOneEntry"},
+	} {
+		fn := c.NeedFunc("weed/filer", spec.fn)
+		if fn == nil {
+			continue
+		}
+		calls := eng.Find(fn, eng.CallTo(spec.callee))
+		if len(calls) == 0 {
+			c.Undecided("WHO-moving", eng.FuncName(fn)+" forwards-context", fn.Pos(), spec.callee+" call not found")
+		}
+		for i, in := range calls {
+			c.Ob("WHO-moving", fmt.Sprintf("%s forwards-context#%d", eng.FuncName(fn), i), eng.IsParam(eng.Arg(in.(ssa.CallInstruction), 0), "ctx"), in.Pos(),
+				"the delete of an entry reaches the store with the caller's context (which carries the move mark of a rename)")
+		}
+	}
 	// WHO-moving: a delete may skip the release of its link only when the same request re-created the name with the same
 	// link id: the "moving" mark is made in moveSelfEntry only, handed to nothing but the delete of the old name, and that
 	// delete is reached only after the create of the new entry (whose literal copies HardLinkId and HardLinkCounter, see
@@ -409,4 +428,53 @@ func releasedOnce(c *eng.Ctx, rule string) {
 		c.Ob(rule, fmt.Sprintf("%s own-identity-released-once#%d", eng.FuncName(fn), i), !own && fromChildren, in.Pos(),
 			"the identities released after the delete are those collected from the deleted children; the addressed entry's own identity is released by the store wrapper's DeleteOneEntry only")
 	}
+}
+
+// hardLinkWriteThrough: writing through a name that carries a link id always rewrites the shared record (whatever the
+// counter says: the read side overlays the record on every entry with a link id), and every successful exit has looked
+// at the entry that is being replaced (whose different identity, if any, is released).
+func hardLinkWriteThrough(c *eng.Ctx, rule string) {
+	fn := c.NeedFunc("weed/filer", "(*FilerStoreWrapper).handleUpdateToHardLinks")
+	if fn == nil {
+		return
+	}
+	set := eng.Find(fn, eng.PlainCallTo("filer.FilerStoreWrapper).setHardLink"))
+	look := eng.Find(fn, eng.CallTo("filer.FilerStore).FindEntry"))
+	hasId := eng.Cmp(func(v ssa.Value) bool {
+		call, ok := v.(*ssa.Call)
+		return ok && eng.CalleeIs(call, "builtin.len") && eng.IsField(call.Call.Args[0], "Entry.HardLinkId") && eng.IsParam(eng.FieldBase(call.Call.Args[0]), "entry")
+	}, func(v ssa.Value) bool { k, ok := eng.ConstInt(v); return ok && k == 0 }, token.GTR, token.NEQ)
+	starts := startsOf(eng.PassEdges(fn, hasId))
+	if len(set) != 1 || len(look) != 1 || len(starts) == 0 {
+		c.Undecided(rule, eng.FuncName(fn)+" write-through", fn.Pos(), "setHardLink / FindEntry / link-id test not found")
+		return
+	}
+	okSet := true
+	for _, st := range starts {
+		if hit, _ := eng.Search(st, eng.IsReturn, eng.SearchOpt{Barrier: eng.Is(set[0])}); hit != nil {
+			okSet = false
+		}
+	}
+	c.Ob(rule, eng.FuncName(fn)+" shared-record-rewritten-whenever-linked", okSet, set[0].Pos(), "an entry that carries a link id rewrites the shared record on every write, whatever its counter")
+	dir := eng.PassEdges(fn, func(cond ssa.Value) (bool, bool) {
+		call, ok := cond.(*ssa.Call)
+		if ok {
+			if f := eng.StaticFn(call); f != nil && f.Name() == "IsDirectory" {
+				return true, true
+			}
+		}
+		return false, false
+	})
+	okLook := true
+	why := ""
+	for _, r := range eng.Find(fn, eng.IsReturn) {
+		if !eng.ReturnMaySucceed(fn, r.(*ssa.Return)) {
+			continue
+		}
+		if hit, path := eng.Search(eng.Entry(fn), eng.Is(r), eng.SearchOpt{Barrier: eng.Is(look[0]), Cut: dir}); hit != nil {
+			okLook = false
+			why = "; path: " + eng.DescribePath(c.P, fn, path)
+		}
+	}
+	c.Ob(rule, eng.FuncName(fn)+" replaced-entry-always-examined", okLook, look[0].Pos(), "no successful exit skips the look at the entry being replaced (its displaced identity must be released)"+why)
 }
